@@ -1,14 +1,16 @@
 #!/bin/bash
 # usage: tools/try_patch.sh <patch.diff> <secs> <check ids...>
-# Applies a seeded change to /repo's working tree, runs the named checks with a
-# short budget, and ALWAYS restores /repo afterwards. Prints one line per check.
-patch=$1; secs=$2; shift 2
+# Applies a seeded change to a scratch worktree of /repo (never to /repo itself,
+# so that background runs that rebuild from /repo are not disturbed), runs the
+# named checks against it with a short budget, removes the worktree afterwards.
+patch=$(readlink -f "$1"); secs=$2; shift 2
 cd /verif || exit 2
-if ! git -C /repo diff --quiet; then echo "/repo has local edits; refusing"; exit 2; fi
-git -C /repo apply "$patch" || { echo "patch does not apply"; exit 2; }
-trap 'git -C /repo checkout -- . ; git -C /repo clean -fdq -- . 2>/dev/null' EXIT
+wt=/tmp/tp_repo.$$
+git -C /repo worktree add -q --detach "$wt" HEAD || exit 2
+trap 'git -C /repo worktree remove --force "$wt" 2>/dev/null' EXIT
+git -C "$wt" apply "$patch" || { echo "patch does not apply"; exit 2; }
 for id in "$@"; do
-  out=$(VERIF_SECS=$secs ./verif check "$id" --tier quick 2>&1); rc=$?
+  out=$(VERIF_REPO=$wt VERIF_SECS=$secs ./verif check "$id" --tier quick 2>&1); rc=$?
   n=$(echo "$out" | grep -c '^VIOLATION')
   first=$(echo "$out" | grep -m1 '^violation:' | cut -c1-260)
   echo "[$id] exit=$rc violations=$n :: $first"
